@@ -76,7 +76,11 @@ func (f *Frame) syntacticModObjs(blocks map[*ssa.BasicBlock]bool, st *State) []s
 				add(rootPtr(x.Addr))
 			case *ssa.MapUpdate:
 				add(rootPtr(x.Map))
-			case *ssa.Call, *ssa.Defer, *ssa.Go:
+			case *ssa.Go:
+				// the spawned body runs concurrently, not in this path: its effects on
+				// lock-protected state are modelled at Lock; unprotected shared state is
+				// outside the model (noted)
+			case *ssa.Call, *ssa.Defer:
 				cc := in.(ssa.CallInstruction).Common()
 				if bi, ok := cc.Value.(*ssa.Builtin); ok {
 					switch bi.Name() {
@@ -316,6 +320,22 @@ func (f *Frame) execInstr(in ssa.Instruction, reach string, st *State) {
 		f.typeAssert(x, reach, st)
 	case *ssa.Go:
 		f.eng.note("go statements: the spawned body is not executed in the spawner's path")
+		// `assert at call go.<callee>: e` states what holds when the goroutine is spawned
+		cc := x.Common()
+		name := "go.funcvalue"
+		if cc.IsInvoke() {
+			name = "go.invoke." + cc.Method.Name()
+		} else if callee := cc.StaticCallee(); callee != nil {
+			name = "go." + callee.Name()
+		}
+		var args []string
+		if cc.IsInvoke() {
+			args = append(args, f.val(cc.Value))
+		}
+		for _, a := range cc.Args {
+			args = append(args, f.val(a))
+		}
+		f.goSiteAsserts(x, cc, name, args, reach, st)
 	default:
 		f.bail("unsupported instruction %T", in)
 	}
